@@ -85,6 +85,8 @@ def run_tlc(module, cfg, env=None, workers=16, simulate=None, timeout=1500,
 
 
 def _run_tlc(module, cfg, env, workers, simulate, timeout, coverage, extra, heap, tag):
+    if os.environ.get("VERIF_TIER_NOW") == "thorough":
+        timeout = max(timeout, 1500) * 3          # the large instances take 10-25 minutes on an idle 16-core box
     meta = os.path.join(workdir(), "tlc_%s_%d" % (tag or module, int(time.time() * 1000) % 10**9))
     os.makedirs(meta, exist_ok=True)
     cmd = ["java", "-XX:+UseParallelGC", "-Xmx" + heap, "-Xss64m", "-cp", TLA_CP, "tlc2.TLC",
